@@ -29,7 +29,26 @@ def build(cfg, family, m, seed):
     name = cfg["env"]
     if name in ROUTING:
         env, _ = envzoo.make(cfg)
-        td = envzoo.instances(env, cfg, family, m, seed)
+        td = envzoo.instances(env, cfg, "gen" if family == "mixed_scale" else family, m, seed)
+        if family == "mixed_scale":
+            # batch-mates of a very different magnitude: every other row lives on a 1000 x 1000 map (documented min_loc / max_loc /
+            # per-instance max_length); nothing a row is offered may depend on the scale of its neighbours
+            big = torch.arange(m) % 2 == 1
+            for k_ in ("locs", "depot"):
+                if k_ in td.keys():
+                    v_ = td[k_].clone()
+                    v_[big] = v_[big] * 1000.0
+                    td[k_] = v_
+            if "max_length" in td.keys():
+                ml_ = td["max_length"].clone()
+                ml_[big] = ml_[big] * 1000.0
+                # the small rows get a budget that leaves a slack of 5e-4 on the tour depot -> c1 -> c2 -> depot: far above the env's
+                # documented 1e-6 margin, far below one thousandth of a neighbour's budget
+                for b_ in range(m):
+                    if not bool(big[b_]) and td["locs"].shape[1] >= 2:
+                        p0, p1, p2 = td["depot"][b_].double(), td["locs"][b_, 0].double(), td["locs"][b_, 1].double()
+                        ml_[b_] = float((p0 - p1).norm() + (p1 - p2).norm() + (p2 - p0).norm()) + 5e-4
+                td["max_length"] = ml_
         names = envzoo.chooser_mix(m, seed)
     else:
         env = envzoo.make_other(cfg)
